@@ -178,14 +178,19 @@ def summarize(res, lines):
     return out
 
 
-def build_and_run(repo, cfgname='default', out_dir=None, rlimit=None, seed=None, extra=()):
+def extract_key_to_vname(key):
+    k = re.sub(r'\[[^\]]*\]', '', key)
+    return k.replace('{trait}', '')
+
+
+def build_and_run(repo, cfgname='default', out_dir=None, rlimit=None, seed=None, extra=(), canary=False):
     cfg = {'default': {'batch': True, 'ptr16': False}, 'nobatch': {'batch': False, 'ptr16': False},
            'ptr16': {'batch': True, 'ptr16': True}}[cfgname]
-    out_dir = out_dir or os.path.join(VERIF, 'build', 'verus', cfgname)
+    out_dir = out_dir or os.path.join(VERIF, 'build', 'verus', cfgname + ('-canary' if canary else ''))
     os.makedirs(out_dir, exist_ok=True)
     degraded = []
     for attempt in range(6):
-        lines, counts, report = extract.extract(repo, VERIF, cfg, extra_external=[('fnbody', k, 'auto: ' + w) for k, w in degraded])
+        lines, counts, report = extract.extract(repo, VERIF, cfg, extra_external=[('fnbody', k, 'auto: ' + w) for k, w in degraded], canary=canary)
         path = os.path.join(out_dir, 'mipidsi_verus.rs')
         open(path, 'w').write('\n'.join(l.text for l in lines) + '\n')
         res = run_verus(path, rlimit=rlimit, seed=seed, extra=extra)
@@ -216,11 +221,19 @@ def build_and_run(repo, cfgname='default', out_dir=None, rlimit=None, seed=None,
 
 if __name__ == '__main__':
     cfgname = sys.argv[1] if len(sys.argv) > 1 else 'default'
+    canary = 'canary' in sys.argv
+    if canary:
+        sys.argv.remove('canary')
     try:
-        summ, lines = build_and_run('/repo', cfgname, extra=sys.argv[2:])
+        summ, lines = build_and_run('/repo', cfgname, extra=sys.argv[2:], canary=canary)
+        if canary:
+            vac = [k for k in summ['report'].get('canaries', []) if summ['functions'].get(extract_key_to_vname(k), {}).get('success', False)]
+            print('canaries:', len(summ['report'].get('canaries', [])), 'vacuous (verified although `false` was added):', vac)
     except extract.Undecided as e:
         print('UNDECIDED:', e)
         sys.exit(2)
+    if summ.get('degraded'):
+        print('DEGRADED (front end rejected a construct; treated as external_body in this run):', summ['degraded'])
     print('verified', summ['verified'], 'errors', summ['nerrors'], 'wall %.1fs' % summ['wall'], 'smt_ms', summ['smt_ms'])
     for e in summ['errors']:
         print('-', e['kind'], '|', e['msg'][:140], '|', e['fn'], '|', e['origin'], '|', (e['src'] or '')[:100])
